@@ -1,34 +1,34 @@
-package c03
+package netsim
 
 import (
 	"fmt"
+	"strings"
 
 	cstypes "github.com/kardiachain/go-kardia/consensus/types"
 	kproto "github.com/kardiachain/go-kardia/proto/kardiachain/types"
 	"github.com/kardiachain/go-kardia/types"
 
 	"verifharness/core"
-	"verifharness/netsim"
 )
 
 // A scenario steers the victim into a state and offers a tempting input. It
 // returns whether the intended state was reached (the monitors do the judging).
 type scenario struct {
 	name string
-	run  func(s *netsim.Script, height uint64) bool
+	run  func(s *Script, height uint64) bool
 }
 
 var nilID = types.BlockID{}
 
 // lockOn: the victim ends up locked on a block in its current round (polka delivered,
 // precommit signed), then the round is finished with nil precommits of the others.
-func lockOn(s *netsim.Script) (types.BlockID, bool) {
+func lockOn(s *Script) (types.BlockID, bool) {
 	s.ToHarnessProposerRound()
 	b := s.Block(0)
 	if b == nil || !s.Propose(b, 0, true) {
 		return nilID, false
 	}
-	bid := netsim.BlockIDOf(b)
+	bid := BlockIDOf(b)
 	r := s.RS().Round
 	s.Votes(kproto.PrevoteType, r, bid, s.Others)
 	if s.RS().LockedBlock == nil {
@@ -42,7 +42,7 @@ func lockOn(s *netsim.Script) (types.BlockID, bool) {
 }
 
 var scenarios = []scenario{
-	{"locked-then-other-proposal-without-polka", func(s *netsim.Script, h uint64) bool {
+	{"locked-then-other-proposal-without-polka", func(s *Script, h uint64) bool {
 		_, ok := lockOn(s)
 		if !ok {
 			return false
@@ -58,7 +58,7 @@ var scenarios = []scenario{
 		}
 		return s.RS().Step >= cstypes.RoundStepPrevote
 	}},
-	{"locked-then-polka-for-other-block-in-later-round", func(s *netsim.Script, h uint64) bool {
+	{"locked-then-polka-for-other-block-in-later-round", func(s *Script, h uint64) bool {
 		_, ok := lockOn(s)
 		if !ok {
 			return false
@@ -70,14 +70,14 @@ var scenarios = []scenario{
 		}
 		s.Propose(b2, 0, true)
 		r := s.RS().Round
-		s.Votes(kproto.PrevoteType, r, netsim.BlockIDOf(b2), s.Others) // may unlock and precommit b2
+		s.Votes(kproto.PrevoteType, r, BlockIDOf(b2), s.Others) // may unlock and precommit b2
 		s.Votes(kproto.PrecommitType, r, nilID, s.Others)
 		if s.RS().Round == r {
 			s.Fire()
 		}
 		return true
 	}},
-	{"locked-then-stale-polka-from-earlier-round", func(s *netsim.Script, h uint64) bool {
+	{"locked-then-stale-polka-from-earlier-round", func(s *Script, h uint64) bool {
 		// round A: proposal B1, the victim prevotes it, only ONE other prevote for B1 plus one nil -> no polka, no lock
 		s.ToHarnessProposerRound()
 		b1 := s.Block(1)
@@ -85,7 +85,7 @@ var scenarios = []scenario{
 			return false
 		}
 		rA := s.RS().Round
-		s.Votes(kproto.PrevoteType, rA, netsim.BlockIDOf(b1), s.Others[:1])
+		s.Votes(kproto.PrevoteType, rA, BlockIDOf(b1), s.Others[:1])
 		s.Votes(kproto.PrevoteType, rA, nilID, s.Others[2:])
 		if s.RS().Step == cstypes.RoundStepPrevoteWait {
 			s.Fire()
@@ -104,7 +104,7 @@ var scenarios = []scenario{
 		}
 		_ = b0id
 		// now the missing prevote of round A arrives: a polka for B1 dated BEFORE the lock round
-		s.Votes(kproto.PrevoteType, rA, netsim.BlockIDOf(b1), s.Others[1:2])
+		s.Votes(kproto.PrevoteType, rA, BlockIDOf(b1), s.Others[1:2])
 		stillLocked := s.RS().LockedBlock != nil
 		// and B1 is proposed again: the victim must prevote its locked block
 		s.ToHarnessProposerRound()
@@ -115,7 +115,7 @@ var scenarios = []scenario{
 		_ = stillLocked
 		return true
 	}},
-	{"polka-for-a-block-it-does-not-hold", func(s *netsim.Script, h uint64) bool {
+	{"polka-for-a-block-it-does-not-hold", func(s *Script, h uint64) bool {
 		s.ToHarnessProposerRound()
 		b := s.Block(1)
 		if b == nil || !s.Propose(b, 0, false) { // proposal without parts
@@ -123,13 +123,13 @@ var scenarios = []scenario{
 		}
 		r := s.RS().Round
 		s.Fire() // propose timeout: prevote nil
-		s.Votes(kproto.PrevoteType, r, netsim.BlockIDOf(b), s.Others)
+		s.Votes(kproto.PrevoteType, r, BlockIDOf(b), s.Others)
 		// must have precommitted nil; now the parts arrive and everybody precommits: fetch, validate, commit
 		s.Parts(b)
-		s.Votes(kproto.PrecommitType, r, netsim.BlockIDOf(b), s.Others)
+		s.Votes(kproto.PrecommitType, r, BlockIDOf(b), s.Others)
 		return true
 	}},
-	{"two-thirds-any-prevotes-but-no-polka", func(s *netsim.Script, h uint64) bool {
+	{"two-thirds-any-prevotes-but-no-polka", func(s *Script, h uint64) bool {
 		s.ToHarnessProposerRound()
 		b := s.Block(0)
 		if b == nil || !s.Propose(b, 0, true) {
@@ -142,35 +142,35 @@ var scenarios = []scenario{
 		}
 		return s.RS().Step >= cstypes.RoundStepPrecommit
 	}},
-	{"precommits-split-over-two-rounds", func(s *netsim.Script, h uint64) bool {
+	{"precommits-split-over-two-rounds", func(s *Script, h uint64) bool {
 		s.ToHarnessProposerRound()
 		b := s.Block(0)
 		if b == nil || !s.Propose(b, 0, true) {
 			return false
 		}
 		r := s.RS().Round
-		bid := netsim.BlockIDOf(b)
+		bid := BlockIDOf(b)
 		s.Votes(kproto.PrecommitType, r, bid, s.Others[:1])
 		s.Votes(kproto.PrecommitType, r+1, bid, s.Others[1:2])
 		s.Votes(kproto.PrecommitType, r+1, nilID, s.Others[2:])
 		// 1 precommit in r, 1 in r+1 (+ maybe the victim's own): must not commit
 		return s.RS().Height == h
 	}},
-	{"commit-for-a-block-it-does-not-hold", func(s *netsim.Script, h uint64) bool {
+	{"commit-for-a-block-it-does-not-hold", func(s *Script, h uint64) bool {
 		s.ToHarnessProposerRound()
 		b := s.Block(1)
 		if b == nil {
 			return false
 		}
 		r := s.RS().Round
-		s.Votes(kproto.PrecommitType, r, netsim.BlockIDOf(b), s.Others) // +2/3 precommits, block unknown
+		s.Votes(kproto.PrecommitType, r, BlockIDOf(b), s.Others) // +2/3 precommits, block unknown
 		if s.RS().Height != h {
 			return false
 		}
 		s.Parts(b) // now it may validate and commit
 		return s.RS().Height == h+1
 	}},
-	{"second-proposal-in-a-round", func(s *netsim.Script, h uint64) bool {
+	{"second-proposal-in-a-round", func(s *Script, h uint64) bool {
 		s.ToHarnessProposerRound()
 		b0, b1 := s.Block(0), s.Block(1)
 		if b0 == nil || b1 == nil {
@@ -180,17 +180,17 @@ var scenarios = []scenario{
 		s.Propose(b1, 0, true)
 		return true
 	}},
-	{"future-round-polka", func(s *netsim.Script, h uint64) bool {
+	{"future-round-polka", func(s *Script, h uint64) bool {
 		s.ToHarnessProposerRound()
 		b := s.Block(0)
 		if b == nil || !s.Propose(b, 0, true) {
 			return false
 		}
 		r := s.RS().Round
-		s.Votes(kproto.PrevoteType, r+1, netsim.BlockIDOf(b), s.Others) // round skip by +2/3 prevotes of a higher round
+		s.Votes(kproto.PrevoteType, r+1, BlockIDOf(b), s.Others) // round skip by +2/3 prevotes of a higher round
 		return s.RS().Round >= r
 	}},
-	{"own-turn-with-valid-block-from-earlier-polka", func(s *netsim.Script, h uint64) bool {
+	{"own-turn-with-valid-block-from-earlier-polka", func(s *Script, h uint64) bool {
 		// a polka for B in round r (the victim holds B, precommits it); nobody else precommits; rounds pass
 		// until the victim proposes: it must re-propose B with a POL round that really has a polka
 		_, ok := lockOn(s)
@@ -210,7 +210,7 @@ func invalidBlockScenario(variant int, viaPolka bool) scenario {
 	if viaPolka {
 		name += "-with-polka"
 	}
-	return scenario{name, func(s *netsim.Script, h uint64) bool {
+	return scenario{name, func(s *Script, h uint64) bool {
 		s.ToHarnessProposerRound()
 		b := s.Block(variant)
 		if b == nil || !s.Propose(b, 0, true) {
@@ -221,8 +221,8 @@ func invalidBlockScenario(variant int, viaPolka bool) scenario {
 			s.Fire()
 		}
 		if viaPolka {
-			s.Votes(kproto.PrevoteType, r, netsim.BlockIDOf(b), s.Others)     // > 2/3 prevote the invalid block
-			s.Votes(kproto.PrecommitType, r, netsim.BlockIDOf(b), s.Others) // ... and precommit it
+			s.Votes(kproto.PrevoteType, r, BlockIDOf(b), s.Others)     // > 2/3 prevote the invalid block
+			s.Votes(kproto.PrecommitType, r, BlockIDOf(b), s.Others) // ... and precommit it
 		}
 		return true
 	}}
@@ -230,7 +230,7 @@ func invalidBlockScenario(variant int, viaPolka bool) scenario {
 
 // cache-primed validation: after the victim validated block X, a block with X's header but an altered
 // last commit (same signatures, so same header hash) is offered in a later round.
-var cachePrimed = scenario{"same-header-altered-last-commit", func(s *netsim.Script, h uint64) bool {
+var cachePrimed = scenario{"same-header-altered-last-commit", func(s *Script, h uint64) bool {
 	if h < 2 {
 		return false
 	}
@@ -250,7 +250,7 @@ var cachePrimed = scenario{"same-header-altered-last-commit", func(s *netsim.Scr
 		s.Fire()
 	}
 	s.ToHarnessProposerRound()
-	x := netsim.SameHeaderOtherCommit(b)
+	x := SameHeaderOtherCommit(b)
 	if x == nil {
 		return false
 	}
@@ -262,7 +262,7 @@ var cachePrimed = scenario{"same-header-altered-last-commit", func(s *netsim.Scr
 }}
 
 // a block that was validated (and prevoted) at the previous height but lost there is proposed again one height later
-var staleBlock = scenario{"block-of-the-previous-height-proposed-again", func(s *netsim.Script, h uint64) bool {
+var staleBlock = scenario{"block-of-the-previous-height-proposed-again", func(s *Script, h uint64) bool {
 	s.ToHarnessProposerRound()
 	b1 := s.Block(1)
 	if b1 == nil || !s.Propose(b1, 0, true) {
@@ -286,8 +286,8 @@ var staleBlock = scenario{"block-of-the-previous-height-proposed-again", func(s 
 		}
 		s.Propose(b0, 0, true)
 		rr := s.RS().Round
-		s.Votes(kproto.PrevoteType, rr, netsim.BlockIDOf(b0), s.Others)
-		s.Votes(kproto.PrecommitType, rr, netsim.BlockIDOf(b0), s.Others)
+		s.Votes(kproto.PrevoteType, rr, BlockIDOf(b0), s.Others)
+		s.Votes(kproto.PrecommitType, rr, BlockIDOf(b0), s.Others)
 	}
 	if s.RS().Height != h+1 {
 		return false
@@ -303,8 +303,26 @@ var staleBlock = scenario{"block-of-the-previous-height-proposed-again", func(s 
 	return true
 }}
 
+// commit step, waiting for the parts of a block known from votes only; then a proposal of the current round arrives
+var commitThenProposal = scenario{"commit-step-then-proposal-of-the-current-round", func(s *Script, h uint64) bool {
+	s.ToHarnessProposerRound()
+	b, other := s.Block(1), s.Block(0)
+	if b == nil || other == nil {
+		return false
+	}
+	r := s.RS().Round
+	s.Votes(kproto.PrecommitType, r, BlockIDOf(b), s.Others) // +2/3 precommits, block unknown: commit step, waiting for parts
+	if s.RS().Step != cstypes.RoundStepCommit {
+		return false
+	}
+	s.Propose(other, 0, false) // the round's proposer proposed another block (only the proposal message arrives)
+	s.Parts(b)                  // the committed block's parts must still complete it
+	return s.RS().Height == h+1
+}}
+
 func allScenarios() []scenario {
 	out := append([]scenario{}, scenarios...)
+	out = append(out, commitThenProposal)
 	out = append(out, staleBlock)
 	for v := 2; v <= 10; v++ {
 		out = append(out, invalidBlockScenario(v, false), invalidBlockScenario(v, true))
@@ -314,14 +332,20 @@ func allScenarios() []scenario {
 }
 
 // scenarioCase: case index -> (scenario, victim position, height at which it is played)
-func scenarioCase(c *core.Case) {
+// NumScenarioCases is the size of the scenario corpus (scenario x victim position x height).
+func NumScenarioCases() int { return len(allScenarios()) * 8 }
+
+// ScenarioCase plays scenario case c.I; alarms of property prop are reported. For C04 the victim must be able to
+// finish the height once the harness-controlled validators cooperate again.
+func ScenarioCase(c *core.Case, prop string) {
 	all := allScenarios()
 	sc := all[c.I%len(all)]
 	variantIdx := c.I / len(all) // 0..7: victim position x height
 	victim := variantIdx % 4
 	atHeight := uint64(1 + (variantIdx/4)%2)
 	run := c.Run
-	s, err := netsim.NewScript(4, victim, []int64{20, 20, 20, 20})
+	s, err := NewScript(4, victim, []int64{20, 20, 20, 20})
+	_ = prop
 	if err != nil {
 		run.Inconclusive("script network: " + err.Error())
 		return
@@ -360,6 +384,9 @@ func scenarioCase(c *core.Case) {
 		}
 		if s.RS().Height == h && !s.V.Dead {
 			run.Count("height_not_finished_after_scenario:"+sc.name, 1)
+			if prop == "C04" && !strings.HasPrefix(sc.name, "invalid-block") {
+				c.Violation("victim-cannot-finish-height@"+scenarioClass(sc.name), fmt.Sprintf("after scenario %q the validator does not commit height %d although all other validators propose, prevote and precommit valid blocks for several rounds: %s", sc.name, h, s.Net.Dump()), map[string]interface{}{"scenario": sc.name, "victim": victim, "height": atHeight, "script": s.Log})
+			}
 		}
 	}
 	for k, v := range s.A.Counts {
@@ -368,7 +395,10 @@ func scenarioCase(c *core.Case) {
 	if c.I < 2 {
 		run.Sample(map[string]interface{}{"scenario": sc.name, "victim": victim, "height": atHeight, "script": s.Log})
 	}
-	for _, a := range s.Alarms("C03") {
+	if prop == "C04" && s.V.Dead && !strings.HasPrefix(sc.name, "invalid-block") {
+		c.Violation("consensus-loop-terminated@"+scenarioClass(sc.name), "the validator's consensus routine ended: "+s.V.DeadWhy, map[string]interface{}{"scenario": sc.name, "victim": victim, "height": atHeight, "script": s.Log})
+	}
+	for _, a := range s.Alarms(prop) {
 		c.Violation(a.Key+"@"+scenarioClass(sc.name), a.What, map[string]interface{}{"scenario": sc.name, "victim": victim, "height": atHeight, "script": s.Log})
 	}
 	if s.V.Dead {
